@@ -21,6 +21,35 @@ def _nums(s):
     return [float(x) for x in re.findall(r'-?\d+\.\d+(?:[eE][-+]?\d+)?', s)]
 
 
+def pressure_table(dassh, r):
+    """Rows of the printed pressure-drop table: per assembly
+    [total, friction, spacer grid, gravity, sum of the region columns] in Pa,
+    None for an entry printed as '---'; None if the table cannot be made."""
+    nreg = max(len(a.region) for a in r.assemblies)
+    try:
+        txt = dassh.table.PressureDropTable(nreg).generate(r)
+    except BaseException:
+        return None
+    out = {}
+    for i, s_ in _rows(txt):
+        tok = s_.split()
+        # name, loc (one token like '(1,1)' or two), total, 3 parts, regions
+        k = next((j for j, t in enumerate(tok) if re.match(
+            r'^-?\d\.\d{4}E[-+]\d+$', t)), None)
+        if k is None:
+            continue
+        vals = []
+        for t in tok[k:]:
+            vals.append(None if t == '---' else float(t) * 1e6)
+        if len(vals) < 4:
+            continue
+        regs = [v for v in vals[4:] if v is not None]
+        out[i] = [vals[0], vals[1], vals[2], vals[3], sum(regs)]
+    if sorted(out) != list(range(1, len(r.assemblies) + 1)):
+        return None
+    return [out[i + 1] for i in range(len(r.assemblies))]
+
+
 def check_summary(dassh, r, d, track=None, units=None):
     """Returns 1 if the coolant and duct summary tables agree with the
     final fields and with independent running maxima (2-decimal print).
